@@ -68,3 +68,12 @@ Definition quote_next (s : str) : str * str :=
 Definition utf8_width (c : Z) : nat := if c <? 128 then 1 else if c <? 2048 then 2 else if c <? 65536 then 3 else 4.
 Definition utf8_len (s : str) : nat := fold_right (fun c n => (utf8_width c + n)%nat) 0%nat s.
 Definition decode_bytelen := decode_at (fun v => pred (utf8_len v)).
+
+(* the token reader of GenericQuoteState: stops at the first quote *)
+Fixpoint gbody (q : Z) (s : str) : str * str :=
+  match s with
+  | [] => ([], [])
+  | c :: r => if c =? q then ([q], r) else let '(b, rest) := gbody q r in (c :: b, rest)
+  end.
+Definition gquote_next (s : str) : str * str :=
+  match s with [] => ([], []) | q :: r => let '(b, rest) := gbody q r in (q :: b, rest) end.
